@@ -9,6 +9,7 @@ import (
 	"sort"
 	"strings"
 	"testing"
+	"time"
 
 	"pgregory.net/rapid"
 	"verif/harness/core"
@@ -32,7 +33,7 @@ type C13Case struct {
 
 const c13Outputs = "cpp:\n  sourcesOutputDir: ../out/cpp\n  generateHDF5: true\npython:\n  outputDir: ../out/py\nmatlab:\n  outputDir: ../out/m\njson:\n  outputDir: ../out/json\n"
 
-const c13Rule = "one generated model IR emitted twice: mode syntax = plain spelling vs a spelling with a random choice at every decision point (shorthand/expanded per type node, primitive alias names, quoting style, flow/block, !generic, [null, T], dimension syntaxes, hex enum values) plus noise comments and blank lines; mode layout = random permutation of definitions and random redistribution over 1-4 files; 1 in 5 cases carries an injected rule violation (both spellings must be rejected). oracle: same exit status; syntax => all generated files byte-identical (model.json compared without source positions); layout => schema literal of every protocol identical in C++, Python and MATLAB output. non-trivial = the two texts differ in at least 3 lines and the model has a union, an array or a generic; distinct = hash of both texts"
+const c13Rule = "one generated model IR emitted twice: mode syntax = plain spelling vs a spelling with a random choice at every decision point (shorthand/expanded per type node, primitive alias names, quoting style, flow/block, !generic, [null, T], dimension syntaxes, hex enum values) plus noise comments and blank lines; mode layout = random permutation of definitions and random redistribution over 1-4 files; 1 in 5 cases carries an injected rule violation (both spellings must be rejected). oracle: same exit status; syntax => all generated files byte-identical (model.json compared without source positions); layout => schema literal of every protocol identical in C++, Python and MATLAB output, and the generated Python package imports for one ordering iff it does for the other. non-trivial = the two texts differ in at least 3 lines and the model has a union, an array or a generic; distinct = hash of both texts"
 
 func noise(t *rapid.T, files model.Files) model.Files {
 	out := model.Files{}
@@ -180,6 +181,13 @@ func checkC13(c C13Case) *Fail {
 			}
 		}
 	case "layout":
+		// the generated Python package of one ordering imports <=> that of the other does
+		// (differential, so Python defects that do not depend on the order cancel out)
+		ia, ea := pyTreeImports(ta)
+		ib, eb := pyTreeImports(tb)
+		if ia != ib {
+			return failf("c13", "the Python package generated from one ordering of the definitions imports, from the other it does not:\n--- A: %v %s\n--- B: %v %s\n--- ordering B of the model\n%s", ia, core.Trunc(ea, 500), ib, core.Trunc(eb, 500), core.Trunc(c.B["main"].Text(), 2500))
+		}
 		sa, sb := schemaLiterals(ta), schemaLiterals(tb)
 		for be, ma := range sa {
 			if len(ma) == 0 {
@@ -193,6 +201,31 @@ func checkC13(c C13Case) *Fail {
 		}
 	}
 	return nil
+}
+
+// pyTreeImports writes the py/ part of a generated tree to a scratch directory and imports it.
+func pyTreeImports(tree map[string]string) (bool, string) {
+	dir := sut.TempDir("c13py")
+	defer os.RemoveAll(dir)
+	n := 0
+	for p, txt := range tree {
+		if strings.HasPrefix(p, "py/") {
+			f := filepath.Join(dir, strings.TrimPrefix(p, "py/"))
+			os.MkdirAll(filepath.Dir(f), 0o755)
+			os.WriteFile(f, []byte(txt), 0o644)
+			n++
+		}
+	}
+	if n == 0 {
+		return true, ""
+	}
+	r := sut.Run(dir, []string{"PYTHONDONTWRITEBYTECODE=1"}, 120*time.Second, nil, sut.PythonBin(), "-c",
+		"import sys,importlib,os\nsys.path.insert(0,'.')\n[importlib.import_module(d) for d in sorted(os.listdir('.')) if os.path.isdir(d) and not d.startswith('__')]")
+	if r.Exit != 0 {
+		lines := strings.Split(strings.TrimSpace(r.Combined()), "\n")
+		return false, lines[len(lines)-1]
+	}
+	return true, ""
 }
 
 func firstDiff(a, b string) string {
